@@ -197,6 +197,12 @@ func (ex *Exec) oblige(st *State, fr *Frame, kind string, pos token.Pos, src str
 	// (guarded, lock-*, assigns) do not stop the real program and are not assumed.
 	switch {
 	case strings.HasPrefix(kind, "guarded"), kind == "blocking", strings.HasPrefix(kind, "lock-nostack"), strings.HasPrefix(kind, "lock-balance"), kind == "assigns", kind == "noblock-under-lock":
+	case kind == "post", strings.HasPrefix(kind, "backedge("):
+		// End-of-path clauses are each proved on their own: a property check
+		// discharges only the clauses charged to that property, so a clause
+		// charged to another one must not be available as a hypothesis here
+		// (a change that falsifies the first of two equal clauses would
+		// otherwise be reported under the first clause's property only).
 	default:
 		ex.vc.Assume(implies(st.guard, goal))
 	}
